@@ -42,8 +42,8 @@ def FUNCTIONS():
 
 
 BOUNDS = {'streams': '2 open streams (local ids 1, 2)',
-          'device': 'stream 1 sends WRTE "a", WRTE "b"; stream 2 sends WRTE "x" then CLSE; merged in a symbolic order; the device OKAYs every host WRTE',
-          'host threads': 'scenario A: one reader per stream; scenario B: a writer (5 bytes, maxdata 2 -> 3 chunks) and a reader on stream 1 while the device sends one WRTE',
+          'device': 'scenario A: stream 1 sends WRTE "a", WRTE "b"; stream 2 sends WRTE "x" then CLSE; all six merges; the device OKAYs every host WRTE at once (reactive fake)',
+          'host threads': 'scenario A: one reader per stream; scenario B: a writer (5 bytes, maxdata 2 -> 3 chunks) and a reader on stream 1 while the device sends two bytes z, y, each after any of the host\'s 0..3 WRTEs (z not later than y), y before or after the OKAY of that WRTE; either thread spawned first',
           'schedule': 'quick: one preemption at any step of the run (0..300 / 0..400) to either thread, a symbolic pick when a thread blocks, either thread first; a preemption whose target is in a timed wait of <= 70 ms lets it expire (time skip). thorough adds two preemptions: any pair in the one-chunk scenario, second within 25 (two readers) / 30 (full writer+reader with z and y both after the 1st or both after the 3rd WRTE) steps of the first; read timeouts 60 ms / write timeout 1 s of virtual time, 10 ms queue polls'}
 STUBS = ['cooperative Lock/RLock/Condition/Queue/time (vlib/seqz/prims.py)', 'message-level fake adapter (framing is C13): read_message blocks until the device has a packet or the timeout expires',
          'streams are constructed directly in the OPEN state (open/close handshake is C15)']
